@@ -149,6 +149,33 @@ class Ctx:
         return out
 
 
+class JobTimeout(Exception):
+    pass
+
+
+class time_limit:
+    """wall-clock limit for one worker job (SIGALRM; workers are single-threaded forked processes). A tightened dopri5 run on a
+    pathological configuration can crawl for an hour: such a job is reported as skipped/timeout instead of stalling the check."""
+
+    def __init__(self, seconds):
+        self.seconds = seconds
+
+    def __enter__(self):
+        import signal
+
+        def handler(signum, frame):
+            raise JobTimeout(f"job exceeded {self.seconds} s")
+        self._old = signal.signal(signal.SIGALRM, handler)
+        signal.setitimer(signal.ITIMER_REAL, self.seconds)
+        return self
+
+    def __exit__(self, *a):
+        import signal
+        signal.setitimer(signal.ITIMER_REAL, 0)
+        signal.signal(signal.SIGALRM, self._old)
+        return False
+
+
 def loguniform(rng, lo, hi):
     return math.exp(rng.uniform(math.log(lo), math.log(hi)))
 
